@@ -2,7 +2,8 @@
    Only statements here; the proof is in proofs/SubstNarrows.v. *)
 Require Import D42.Prelude D42.Value D42.Regex D42.Schema D42.Validate D42.Conforms
                D42.FromNative D42.Substitute.
-Require Import D42P.ValidateSpec D42P.SubstNarrows.
+Require Import D42.Agree.
+Require Import D42P.ValidateSpec D42P.SubstNarrows D42P.SubstSat.
 
 (* For every well-formed schema s (any type, any nesting), every plain value v (no `...`
    / Nil placeholders, no opaque objects) for which s % v succeeds, and EVERY value w:
@@ -46,3 +47,15 @@ Example ex_result_rejects_other :   (* the original accepts it, the narrowed sch
   | _ => true end = false
   /\ verdict ex_s (VList [VInt 8%Z; VDict [(KStr [97], VInt 3%Z)]; VNone]) = true.
 Proof. vm_compute. auto. Qed.
+
+(* With the result's well-formedness proved (subst_result_wf, proofs/SubstSat.v), the verdict form needs no
+   hypothesis about s' any more (dict keys of v pairwise distinct, as in any Python dict): *)
+Theorem subst_narrows_verdict_closed :
+  forall s, wf s = true ->
+  forall v s', plain v = true -> vwf v = true -> substitute s v = Ok s' ->
+  forall w, verdict s' w = true -> verdict s w = true.
+Proof.
+  intros s Hwf v s' Hpl Hvw Hs w Hv.
+  exact (subst_narrows_verdict s Hwf v s' Hpl Hs (subst_wf_lemma s Hwf v s' Hpl Hvw Hs) w Hv).
+Qed.
+Print Assumptions subst_narrows_verdict_closed.
